@@ -57,6 +57,7 @@ FAMILY_DATA = {
 }
 
 GM_QUICK_DATA = ("D0", "D2", "D4")
+M_QUICK_DATA = ("D0", "D2")
 REPEAT_FAMILIES = {"T", "TX", "I", "Td", "TXd", "Id", "K"}  # parsed and rendered a second time on the same envs
 
 _ENVS: dict[tuple[str, str], Any] = {}
@@ -159,7 +160,8 @@ class C03(Check):
             "programs": "n<=2 full menu (env D) + n<=2 extra menu (env X), all mutants" if q else
                         "n<=2 full menu (D) + n<=2 extra menu (X) + n=3 core menu depth<=2 (D), all mutants "
                         "(mutants of n=3 programs with data set D0 only)",
-            "data_sets": {k: list(GM_QUICK_DATA if (q and k == "Gm") else v) for k, v in FAMILY_DATA.items()
+            "data_sets": {k: list(GM_QUICK_DATA if (q and k == "Gm") else M_QUICK_DATA if (q and k == "M") else v)
+                          for k, v in FAMILY_DATA.items()
                           if not (q and k == "Gm3")},
         }
 
@@ -213,7 +215,7 @@ class C03(Check):
         if kind == "M":
             _, ek, k, prefix = shard
             for src in malformed_sources(k, prefix):
-                self.run_source(res, "M", ek, src)
+                self.run_source(res, "M", ek, src, labels=M_QUICK_DATA if tier == "quick" else None)
         elif kind == "T":
             _, k, first = shard
             tags = CG.TAGS_QUICK if tier == "quick" else CG.TAGS
@@ -350,7 +352,7 @@ class C03(Check):
         ready()
         res = Result()
         fam = case["family"]
-        labels = list(GM_QUICK_DATA if fam == "Gm" else FAMILY_DATA.get(fam, ()))
+        labels = list(FAMILY_DATA.get(fam, ()))
         if case["data"] in labels:  # same within-source history as the exploration (earlier data sets first)
             labels = labels[: labels.index(case["data"]) + 1]
         else:
